@@ -10,6 +10,7 @@ func C03(run *report.Run) {
 	st := &c03Stats{}
 	c03Sequential(run, acc, st)
 	c03Schedules(run, acc)
+	c03Synctest(run)
 	acc.flush(run)
 	run.Evals = st.evals + st.retries
 	run.Distinct = st.failing
